@@ -1,16 +1,25 @@
 /-
-Core engine model: the fragment of the engine used by programs that consist of input and normal
-queries with single (ordered) reads — verification stamps per epoch, repair in recorded dependency
-order with the clean-edge shortcut, fingerprint comparison (early cut-off), re-execution with
-dynamic dependency sets, dirty propagation at commit.  This is the model the C01/C03 theorems are
-proved about; `Model/Engine.lean` is the full model (firewalls, projections, cycles).  Both are run
-against the implementation by the correspondence check.
+Core engine model: the fragment of the engine used by programs that consist of input, normal and
+external-input queries with single (ordered) reads and unordered read groups — verification stamps
+per epoch, repair in recorded dependency order with the clean-edge shortcut, fingerprint comparison
+(early cut-off), re-execution with dynamic dependency sets, dirty propagation at commit, `refresh`
+of the external inputs.  This is the model the C01/C03 theorems are proved about;
+`Model/Engine.lean` is the full model (firewalls, projections, cycles).  Both are run against the
+implementation by the correspondence check.
 
 Representation chosen for provability: maps are functions, the static rank of a key is its index
 (`WF`: an executor of key `k` only asks keys `< k`), recursion is by fuel with the recursive call
 passed as a parameter (`repairDeps q`, `runProg q`).  Dirty propagation is modelled by its fixed
 point (`affected`): an edge `(c, x)` is marked iff `x` is reachable from a changed input through
 recorded backward edges — what the dirty worker's breadth-first traversal computes.
+
+External-input queries: the executor of an external key reads no query, only the harness-controlled
+`world` (constant between two sessions).  It runs on first demand, is never re-run by a query, and
+`refresh` (a session write) re-runs the executor of every external key computed so far.
+
+Unordered read groups (`Prog.askAll`): the members are queried one after the other; the recorded
+dependencies stay one flat ordered list (the engine records `Unordered [..]` and, on repair, checks
+the members concurrently and stops at the first difference; sequentially: in list order).
 -/
 import QbiceVerif.Model.Engine
 namespace Qbice.Core
@@ -18,18 +27,26 @@ namespace Qbice.Core
 abbrev Key := Nat
 abbrev Val := Int
 
+inductive Kind | input | normal | external
+  deriving DecidableEq, Repr
+
 inductive Prog where
   | ret (v : Val)
   | ask (k : Key) (cont : Val → Prog)
+  /-- unordered read group -/
+  | askAll (ks : List Key) (cont : List Val → Prog)
 
 structure NodeDef where
-  isInput : Bool
+  kind : Kind
+  /-- executor of a normal key -/
   prog : Prog
+  /-- executor of an external key: a function of the world -/
+  ext : (Key → Val) → Val := fun _ => 0
 
 abbrev Program := List NodeDef
 
 structure Node where
-  isInput : Bool
+  kind : Kind
   lastVerified : Nat
   value : Val
   /-- recorded reads in order (first occurrence of each callee) with the observed value -/
@@ -42,6 +59,8 @@ structure St where
   epoch : Nat := 0
   nodes : Key → Option Node := fun _ => none
   dirty : Key → Key → Bool := fun _ _ => false
+  /-- the harness-controlled cells read by external executors -/
+  world : Key → Val := fun _ => 0
   log : List Key := []
 
 def setNode (s : St) (k : Key) (n : Node) : St :=
@@ -71,6 +90,21 @@ def repairDeps (q : Q) (k : Key) : List (Key × Val) → St → Except Err (Bool
 def recordDep (acc : List (Key × Val)) (d : Key) (v : Val) : List (Key × Val) :=
   if acc.any (fun e => e.1 == d) then acc else acc ++ [(d, v)]
 
+def recordAll (acc : List (Key × Val)) : List (Key × Val) → List (Key × Val)
+  | [] => acc
+  | (d, v) :: rest => recordAll (recordDep acc d v) rest
+
+/-- the members of an unordered group, queried one after the other -/
+def askMany (q : Q) : List Key → St → Except Err (List (Key × Val) × St)
+  | [], s => .ok ([], s)
+  | d :: rest, s =>
+    match q d s with
+    | .error e => .error e
+    | .ok (v, s1) =>
+      match askMany q rest s1 with
+      | .error e => .error e
+      | .ok (kvs, s2) => .ok ((d, v) :: kvs, s2)
+
 /-- running an executor: every `ask` is a query for the dependency -/
 def runProg (q : Q) : Prog → List (Key × Val) → St → Except Err (Val × List (Key × Val) × St)
   | .ret v, acc, s => .ok (v, acc, s)
@@ -78,14 +112,26 @@ def runProg (q : Q) : Prog → List (Key × Val) → St → Except Err (Val × L
     match q d s with
     | .error e => .error e
     | .ok (v, s1) => runProg q (cont v) (recordDep acc d v) s1
+  | .askAll ks cont, acc, s =>
+    match askMany q ks s with
+    | .error e => .error e
+    | .ok (kvs, s1) => runProg q (cont (kvs.map (·.2))) (recordAll acc kvs) s1
+
+/-- `set_computed`: the node is replaced, its dirty edges are gone, the invocation is logged -/
+def install (s : St) (k : Key) (n : Node) : St :=
+  let s3 := setNode (clearDirtyFrom s k) k n
+  { s3 with log := s3.log ++ [k] }
 
 def execute (q : Q) (k : Key) (prog : Prog) (s : St) : Except Err (Val × St) :=
   match runProg q prog [] s with
   | .error e => .error e
   | .ok (v, deps, s1) =>
-    let s2 := clearDirtyFrom s1 k
-    let s3 := setNode s2 k { isInput := false, lastVerified := s2.epoch, value := v, deps := deps }
-    .ok (v, { s3 with log := s3.log ++ [k] })
+    .ok (v, install s1 k { kind := .normal, lastVerified := s1.epoch, value := v, deps := deps })
+
+/-- first demand of an external key: its executor reads the world -/
+def executeExt (k : Key) (d : NodeDef) (s : St) : Val × St :=
+  let v := d.ext s.world
+  (v, install s k { kind := .external, lastVerified := s.epoch, value := v, deps := [] })
 
 /-- `query_for` for this fragment. -/
 def query (p : Program) : Nat → Q
@@ -95,10 +141,14 @@ def query (p : Program) : Nat → Q
     | none =>
       match p[k]? with
       | none => .error (.badKey k)
-      | some d => if d.isInput then .error (.inputNotSet k) else execute (query p fuel) k d.prog s
+      | some d =>
+        match d.kind with
+        | .input => .error (.inputNotSet k)
+        | .external => .ok (executeExt k d s)
+        | .normal => execute (query p fuel) k d.prog s
     | some n =>
       if n.lastVerified = s.epoch then .ok (n.value, s)
-      else if n.isInput then .ok (n.value, setNode s k { n with lastVerified := s.epoch })
+      else if n.kind ≠ .normal then .ok (n.value, setNode s k { n with lastVerified := s.epoch })
       else
         match p[k]? with
         | none => .error (.badKey k)
@@ -119,28 +169,67 @@ def affected (s : St) (changed : List Key) : Nat → Key → Bool
        | some n => n.deps.any (fun d => affected s changed f d.1)
        | none => false)
 
-inductive SetRes | fresh | updated | unchanged
+inductive Write | set (k : Key) (v : Val) | refresh | world (k : Key) (v : Val)
   deriving Repr, DecidableEq
 
-/-- the writes of one session: `set_input` per write -/
-def applySets (p : Program) : List (Key × Val) → St → List SetRes → List Key →
+inductive SetRes | fresh | updated | unchanged | refreshed | world
+  deriving Repr, DecidableEq
+
+/-- the world writes of a session take effect before the session starts -/
+def applyWorld : List Write → (Key → Val) → (Key → Val)
+  | [], w => w
+  | .world c v :: rest, w => applyWorld rest (fun x => if x = c then v else w x)
+  | _ :: rest, w => applyWorld rest w
+
+def isExtNode (s : St) (k : Key) : Bool :=
+  match s.nodes k with
+  | some n => decide (n.kind = .external)
+  | none => false
+
+/-- the node of `k` after a refresh: an external node gets the value its executor returns now -/
+def refreshNode (p : Program) (s : St) (k : Key) : Option Node :=
+  match s.nodes k, p[k]? with
+  | some n, some d =>
+    if n.kind = .external then
+      some { n with lastVerified := s.epoch, value := d.ext s.world, deps := [] }
+    else some n
+  | o, _ => o
+
+/-- the result of re-running the executor of the external key `k` differs from the stored one -/
+def extChanged (p : Program) (s : St) (k : Key) : Bool :=
+  match s.nodes k, p[k]? with
+  | some n, some d => decide (n.kind = .external) && decide (n.value ≠ d.ext s.world)
+  | _, _ => false
+
+/-- `refresh`: the executor of every external key computed so far runs again (logged, in key
+    order); a changed result is treated like an `Updated` input; the nodes stay external -/
+def refreshAll (p : Program) (s : St) (ch : List Key) : St × List Key :=
+  let exts := (List.range p.length).filter (isExtNode s)
+  ({ s with nodes := refreshNode p s, log := s.log ++ exts }, ch ++ exts.filter (extChanged p s))
+
+/-- the writes of one session: `set_input` per `set`, `refresh` -/
+def applySets (p : Program) : List Write → St → List SetRes → List Key →
     Except Err (St × List SetRes × List Key)
   | [], s, rs, ch => .ok (s, rs, ch)
-  | (k, v) :: rest, s, rs, ch =>
+  | .set k v :: rest, s, rs, ch =>
     match p[k]? with
     | none => .error (.badKey k)
     | some d =>
-      if !d.isInput then .error .badOp
+      if d.kind ≠ .input then .error .badOp
       else
         let r := match s.nodes k with
           | none => SetRes.fresh
           | some n => if n.value ≠ v then .updated else .unchanged
-        let s' := setNode s k { isInput := true, lastVerified := s.epoch, value := v, deps := [] }
+        let s' := setNode s k { kind := .input, lastVerified := s.epoch, value := v, deps := [] }
         applySets p rest s' (rs ++ [r]) (if r = .updated then ch ++ [k] else ch)
+  | .world _ _ :: rest, s, rs, ch => applySets p rest s (rs ++ [.world]) ch
+  | .refresh :: rest, s, rs, ch =>
+    let r := refreshAll p s ch
+    applySets p rest r.1 (rs ++ [.refreshed]) r.2
 
 /-- `input_session()` (epoch bump) · writes · `commit()` (dirty propagation) -/
-def session (p : Program) (sets : List (Key × Val)) (s : St) : Except Err (List SetRes × St) :=
-  match applySets p sets { s with epoch := s.epoch + 1 } [] [] with
+def session (p : Program) (ws : List Write) (s : St) : Except Err (List SetRes × St) :=
+  match applySets p ws { s with epoch := s.epoch + 1, world := applyWorld ws s.world } [] [] with
   | .error e => .error e
   | .ok (s1, rs, changed) =>
     let aff := affected s1 changed (p.length + 1)
@@ -166,29 +255,50 @@ def round (p : Program) (fuel : Nat) (ks : List Key) (s : St) : Except Err (List
 
 -- ------------------------------------------------------------------ specification
 
+/-- the values of all keys of a group, if all are defined -/
+def allVals (rec : Key → Option Val) : List Key → Option (List Val)
+  | [] => some []
+  | d :: rest =>
+    match rec d with
+    | none => none
+    | some v =>
+      match allVals rec rest with
+      | none => none
+      | some vs => some (v :: vs)
+
 /-- from-scratch evaluation of an executor given the values of lower keys -/
 def evalProg (rec : Key → Option Val) : Prog → Option Val
   | .ret v => some v
   | .ask d cont => match rec d with
     | some v => evalProg rec (cont v)
     | none => none
+  | .askAll ks cont => match allVals rec ks with
+    | some vs => evalProg rec (cont vs)
+    | none => none
 
-/-- from-scratch value of key `k` on the committed inputs; fuel `k+1` suffices for `WF` programs -/
-def evalSpec (p : Program) (inputs : Key → Option Val) : Nat → Key → Option Val
+/-- from-scratch value of key `k` on the committed inputs and the external values `ext` (the world
+    as of the first demand / last refresh of each external key); fuel `k+1` suffices for `WF`
+    programs -/
+def evalSpec (p : Program) (inputs : Key → Option Val) (ext : Key → Option Val) : Nat → Key → Option Val
   | 0, _ => none
   | f + 1, k =>
     match p[k]? with
     | none => none
-    | some d => if d.isInput then inputs k else evalProg (evalSpec p inputs f) d.prog
+    | some d =>
+      match d.kind with
+      | .input => inputs k
+      | .external => ext k
+      | .normal => evalProg (evalSpec p inputs ext f) d.prog
 
 /-- every key an executor can ask, whatever it reads, is below `bound` -/
 def Prog.Below (bound : Nat) : Prog → Prop
   | .ret _ => True
   | .ask d cont => d < bound ∧ ∀ v, Prog.Below bound (cont v)
+  | .askAll ks cont => (∀ d, d ∈ ks → d < bound) ∧ ∀ vs, Prog.Below bound (cont vs)
 
 /-- static rank = index -/
 def WF (p : Program) : Prop :=
-  ∀ (k : Key) (d : NodeDef), p[k]? = some d → d.isInput = false → d.prog.Below k
+  ∀ (k : Key) (d : NodeDef), p[k]? = some d → d.kind = .normal → d.prog.Below k
 
 -- ------------------------------------------------------------------ bridge from the full model's programs
 
@@ -196,10 +306,22 @@ def WF (p : Program) : Prop :=
 def ofProg : Qbice.Engine.Prog → Prog
   | .ret v => .ret v
   | .ask k c => .ask k fun v => ofProg (c v)
-  | .askAll _ c => ofProg (c [])       -- not in the fragment
-  | .world _ c => ofProg (c 0)         -- not in the fragment
+  | .askAll ks c => .askAll ks fun vs => ofProg (c vs)
+  | .world _ c => ofProg (c 0)         -- not in the fragment (normal executors read no world cell)
+
+/-- the executor of an external key as a function of the world -/
+def extFun : Qbice.Engine.Prog → (Key → Val) → Val
+  | .ret v, _ => v
+  | .world c cont, w => extFun (cont (w c)) w
+  | .ask _ _, _ => 0                   -- not in the fragment (external executors read no query)
+  | .askAll _ _, _ => 0                -- not in the fragment
+
+def ofKind : Qbice.Engine.Kind → Kind
+  | .input => .input
+  | .external => .external
+  | _ => .normal                        -- firewall / projection: not in the fragment
 
 def ofProgram (p : Qbice.Engine.Program) : Program :=
-  p.map fun d => { isInput := d.kind == .input, prog := ofProg d.prog }
+  p.map fun d => { kind := ofKind d.kind, prog := ofProg d.prog, ext := extFun d.prog }
 
 end Qbice.Core
